@@ -486,7 +486,7 @@ val e_const_inc_of : expr -> z -> z option
 
 val remove_var : z -> z list -> z list
 
-val e_prod_of : expr -> z -> expr option
+val e_prod_of : z -> expr -> z -> expr option
 
 val e_constant_part : expr -> z
 
